@@ -1,6 +1,9 @@
 package main
 
 import (
+	"bytes"
+	"io"
+	"testing/iotest"
 	"math"
 	"math/big"
 	"reflect"
@@ -42,6 +45,8 @@ func wireOf(fmtc string, z *big.Int) []byte {
 	return append([]byte{major | 27}, be(8, v)...)
 }
 
+var wireNumRot int
+
 func runWireNum(payload string) string {
 	fs := strings.Fields(payload)
 	e := newEnv()
@@ -55,7 +60,25 @@ func runWireNum(payload string) string {
 		return "nowire"
 	}
 	target := reflect.New(t.rt)
+	// the same bytes from memory, one byte per Read, half-size Reads, and with the last data arriving together
+	// with io.EOF, in rotation: the number stored must not depend on how the reader delivers it
+	wireNumRot++
 	err, p := safely(func() error {
+		var rd io.Reader
+		switch wireNumRot % 4 {
+		case 1:
+			rd = iotest.OneByteReader(bytes.NewReader(w))
+		case 2:
+			rd = iotest.DataErrReader(bytes.NewReader(w))
+		case 3:
+			rd = iotest.HalfReader(bytes.NewReader(w))
+		}
+		if rd != nil {
+			if fs[0] == "c" {
+				return refmt.NewUnmarshaller(cbor.DecodeOptions{}, rd).Unmarshal(target.Interface())
+			}
+			return refmt.NewUnmarshaller(json.DecodeOptions{}, rd).Unmarshal(target.Interface())
+		}
 		if fs[0] == "c" {
 			return refmt.Unmarshal(cbor.DecodeOptions{}, w, target.Interface())
 		}
